@@ -51,6 +51,29 @@ class Harness:
 _H = {}  # name -> Harness, filled before fork
 _SEED = [0]
 _SAMPLE_RATE = [1.0]
+_CROSS = [0.01, 2, 5000]  # (probability, cap per job, timeout ms) of re-deciding a discharged query with cvc5
+
+
+def cvc5_check(smt2, timeout_ms=20000):
+    """Decide an SMT-LIB script with the cvc5 wheel; returns 'sat' / 'unsat' / 'unknown'."""
+    import cvc5
+    slv = cvc5.Solver()
+    slv.setOption("tlimit-per", str(timeout_ms))
+    slv.setLogic("ALL")
+    p = cvc5.InputParser(slv)
+    p.setStringInput(cvc5.InputLanguage.SMT_LIB_2_6, smt2, "query")
+    sm = p.getSymbolManager()
+    res = "unknown"
+    while True:
+        cmd = p.nextCommand()
+        if cmd.isNull():
+            break
+        out = str(cmd.invoke(slv, sm)).strip()
+        if out in ("sat", "unsat", "unknown"):
+            res = out
+        elif out.startswith("(error"):
+            return "error"
+    return res
 
 
 def _on_path(h):
@@ -73,6 +96,21 @@ def _on_path(h):
             res["obligations"] = res.get("obligations", 0) + len(out.props)
             conj = z3.And([p for _, p in out.props]) if len(out.props) > 1 else out.props[0][1]
             r = ctx.check(z3.Not(conj))
+            if r == z3.unsat and res.get("cross", 0) < _CROSS[1]:
+                rnd2 = random.Random(hash((_SEED[0], "cross", h.name, tuple(d for d, _ in ctx.prefix), res["paths"])))
+                if rnd2.random() < _CROSS[0]:
+                    s2 = z3.Solver()
+                    s2.add(ctx.solver.assertions())
+                    s2.add(z3.Not(conj))
+                    try:
+                        ans = cvc5_check(s2.to_smt2(), _CROSS[2])
+                    except Exception as e:  # parser/feature gap of the second solver: recorded, not a verdict
+                        ans = "error"
+                    res["cross"] = res.get("cross", 0) + 1
+                    cc = res.setdefault("cross_results", {})
+                    cc[ans] = cc.get(ans, 0) + 1
+                    if ans == "sat":
+                        raise Inconclusive("z3 says unsat, cvc5 says sat on an oracle query of harness %s" % h.name)
             if r == z3.sat:
                 failed = []
                 m = core.nice_model(ctx, [z3.Not(conj)], out.inputs, out.prefer)
@@ -175,6 +213,8 @@ def run_check(check_id, harnesses, tier, seed, known=None, budget_s=None, eviden
     agg = {h.name: dict(paths=0, aborted=0, queries=0, solver_s=0.0, decisions=0, reached=0,
                         obligations=0, stat={}, notes={}) for h in harnesses}
     records = []
+    cross = {}
+    _CROSS[0], _CROSS[1], _CROSS[2] = (0.01, 2, 4000) if tier == "quick" else (0.03, 4, 20000)
     violation = None
     error = None
     ctxm = mp.get_context("fork")
@@ -211,6 +251,8 @@ def run_check(check_id, harnesses, tier, seed, known=None, budget_s=None, eviden
                 a = agg[res["harness"]]
                 for k in ("paths", "aborted", "queries", "solver_s", "decisions"):
                     a[k] += res[k]
+                for k, v in res.get("cross_results", {}).items():
+                    cross[k] = cross.get(k, 0) + v
                 a["reached"] += res.get("reached", 0)
                 a["obligations"] += res.get("obligations", 0)
                 for k, v in res.get("stat", {}).items():
@@ -316,6 +358,8 @@ def run_check(check_id, harnesses, tier, seed, known=None, budget_s=None, eviden
             paths_reaching_assertion=tot("reached"), oracle_obligations_discharged=tot("obligations"),
             infeasible_paths_cut=tot("aborted"), queries=tot("queries"), solver_s=round(tot("solver_s"), 2),
             functions=funcs,
+            second_solver=dict(solver="cvc5 (python wheel)", queries_rechecked=sum(cross.values()), results=cross,
+                               note="sample of discharged oracle queries re-decided by cvc5; a 'sat' answer makes the check inconclusive"),
             harnesses={h.name: dict(bounds=h.bounds, stubs=h.stubs, **{k: (round(v, 2) if isinstance(v, float) else v) for k, v in agg[h.name].items()})
                        for h in harnesses},
             explanation="states = execution paths of the real functions explored symbolically (every feasible branch outcome "
